@@ -8,6 +8,7 @@ import (
 	"math/rand"
 	"os"
 	"path/filepath"
+	"strings"
 
 	"tags.cncf.io/container-device-interface/pkg/cdi"
 	specs "tags.cncf.io/container-device-interface/specs-go"
@@ -151,6 +152,10 @@ func checkC09(c *Ctx) {
 		cache, _ := cdi.NewCache(cdi.WithSpecDirs(sub), cdi.WithAutoRefresh(false))
 		want := normJSON(s)
 		loaded := map[string]string{}
+		leftovers := chance(r, 20)
+		if leftovers {
+			c.Count("writes_next_to_leftovers_of_interrupted_writers", 1)
+		}
 		for _, name := range []string{"x.json", "x.yaml", "x"} {
 			enc := "yaml"
 			if name == "x.json" {
@@ -161,6 +166,14 @@ func checkC09(c *Ctx) {
 				file += ".yaml"
 			}
 			os.Remove(filepath.Join(sub, "x.yaml"))
+			if leftovers {
+				// what interrupted writers of this very name may have left behind: longer
+				// than anything written now, and a valid continuation in either encoding
+				junk := []byte(strings.Repeat("#", 300) + "\n" + strings.Repeat("- name: ghost\n  containerEdits:\n    env: [\"GHOST=1\"]\n", 40))
+				os.WriteFile(file+".tmp", junk, 0o600)
+				os.WriteFile(filepath.Join(sub, "spec.12345.tmp"), junk, 0o600)
+				os.WriteFile(filepath.Join(sub, "."+filepath.Base(file)+".tmp"), junk, 0o600)
+			}
 			tags := strTraits(val)
 			tags["encoding"], tags["field"], tags["class"] = enc, field, class
 			wit := func(extra map[string]any) map[string]any {
